@@ -43,14 +43,15 @@ func init() { registerExtractor(extractImpKernels) }
 
 type impTarget struct {
 	file, fn string
+	split    bool // emit one definition per top-level statement (`top<k>`), `run` is their composition
 }
 
 var impTargets = []impTarget{
-	{"hermes/soiltemp.go", "Soiltemp"},
-	{"hermes/denit.go", "Denitr"},
-	{"hermes/water.go", "Water"},
-	{"hermes/nitro.go", "nmove"},
-	{"hermes/nitro.go", "mineral"},
+	{"hermes/soiltemp.go", "Soiltemp", false},
+	{"hermes/denit.go", "Denitr", false},
+	{"hermes/water.go", "Water", true},
+	{"hermes/nitro.go", "nmove", true},
+	{"hermes/nitro.go", "mineral", false},
 }
 
 // ---------------------------------------------------------------------------------------------- type-checked package
@@ -1171,7 +1172,29 @@ func translateImp(h *hermesPkg, tg impTarget) (res impResult) {
 	}
 	t.findPure(fd.Body)
 	var body strings.Builder
-	t.seq(&body, fd.Body.List, "  ")
+	var tops []string
+	if tg.split {
+		// one definition per top-level statement; a single-assignment local declared at the top level would have to be visible
+		// in the later definitions: such a function is not split
+		for _, st := range fd.Body.List {
+			if as, ok := st.(*ast.AssignStmt); ok && as.Tok == token.DEFINE {
+				if id, ok := as.Lhs[0].(*ast.Ident); ok {
+					if obj := h.info.Defs[id]; obj != nil && t.pure[obj] {
+						t.fail("%s: top-level single-assignment local %s in a function that is to be split", t.pos(st), id.Name)
+					}
+				}
+			}
+		}
+		for k, st := range fd.Body.List {
+			var b strings.Builder
+			t.seq(&b, []ast.Stmt{st}, "  ")
+			tops = append(tops, fmt.Sprintf("/-- top-level statement %d of `%s` (%s) -/\ndef top%d (m : MathFns α) (s : St α) : St α :=\n%s", k+1, tg.fn, t.pos(st), k+1, b.String()))
+			fmt.Fprintf(&body, "  let s : St α := top%d m s\n", k+1)
+		}
+		body.WriteString("  s\n")
+	} else {
+		t.seq(&body, fd.Body.List, "  ")
+	}
 	if t.hasBrk {
 		t.fields["brk"] = &impField{Lean: "brk", Kind: "bool", Role: "local", Order: len(t.fields)}
 	}
@@ -1196,7 +1219,14 @@ func translateImp(h *hermesPkg, tg impTarget) (res impResult) {
 	for _, d := range t.defs {
 		out.WriteString(d + "\n")
 	}
-	fmt.Fprintf(&out, "/-- `%s` (%s) -/\ndef run (m : MathFns α) (s : St α) : St α :=\n%s\nend\n\nend Hermes.Generated.Imp.%s\n", tg.fn, tg.file, body.String(), tg.fn)
+	for _, d := range tops {
+		out.WriteString(d + "\n")
+	}
+	pre := ""
+	if t.hasBrk {
+		pre = "  let s : St α := { s with brk := false }\n" // the break flag is a local of the translation: it starts cleared
+	}
+	fmt.Fprintf(&out, "/-- `%s` (%s) -/\ndef run (m : MathFns α) (s : St α) : St α :=\n%s%s\nend\n\nend Hermes.Generated.Imp.%s\n", tg.fn, tg.file, pre, body.String(), tg.fn)
 	res.lean = out.String()
 	res.fields = fl
 	return
